@@ -430,9 +430,11 @@ def _scratch(root, repo):
 def run_variant(v: Variant, repo: str, tmproot: str, baseline_keys: dict):
     w = os.path.join(tmproot, v.vid)
     if v.kind == "autotwin":
-        from .twins import make_twin
+        from .twins import make_twin, make_reformat_twin, make_param_twin
         try:
-            stats = make_twin(repo, w)
+            stats = {"auto-reformat-python": make_reformat_twin,
+                     "auto-rename-kernel-params": make_param_twin}.get(
+                         v.vid, make_twin)(repo, w)
         except Exception as e:          # the twin generator is not the checker
             shutil.rmtree(w, ignore_errors=True)
             return v, "skipped", f"rename twin not generated: {type(e).__name__}: {e}"
@@ -530,6 +532,8 @@ def self_validate(prop: str, repo: str, jobs: int = 16):
     """Run all variants of `prop`; returns (results, summary)."""
     variants = [v for v in CATALOGUE + fix_reverts() if v.prop == prop]
     variants.append(Variant("auto-rename-all-locals", prop, "autotwin"))
+    variants.append(Variant("auto-reformat-python", prop, "autotwin"))
+    variants.append(Variant("auto-rename-kernel-params", prop, "autotwin"))
     tmproot = tempfile.mkdtemp(prefix=f"pyuverif_{prop}_",
                                dir=os.environ.get("TMPDIR", "/tmp"))
     try:
